@@ -78,7 +78,7 @@ func pushScenario(t *rapid.T, restartFocus bool) sim.Scenario {
 		case roll < 22:
 			pushes++
 			kind := pick(t, "kind", []string{"callback", "callback", "notify"})
-			st = sim.Step{Op: "push", Push: kind, K: pushes, D: pick(t, "deadline", []int{0, 0, 1000, 3000, -1})}
+			st = sim.Step{Op: "push", Push: kind, K: pushes, D: pick(t, "deadline", []int{0, 0, 1000, 3000, -1, -2})}
 			if rapid.IntRange(0, 14).Draw(t, "badparams") == 0 {
 				st.Out = "badparams" // refused before anything is sent
 			} else if kind == "callback" {
